@@ -12,6 +12,7 @@ import io
 import itertools
 import os
 
+from zcv import loadcheck  # noqa: F401  (defines the referenced names in os.environ)
 from zcv import model
 from zcv.core import Result, failure
 
@@ -96,9 +97,10 @@ def _zc():
     return _STATE["ZConfig"], _STATE["MemLoader"], _STATE["schema"]
 
 
-def load(resources, schema=None):
+def load(resources, schema=None, loader=None):
     ZConfig, MemLoader, sch = _zc()
-    loader = MemLoader(schema or sch)
+    if loader is None:
+        loader = MemLoader(schema or sch)
     loader.resources = resources
     try:
         cfg, _ = loader.loadURL(MAIN)
@@ -135,14 +137,24 @@ def check(resources):
     """-> (reference outcome, [(sig, detail)])"""
     ref = reference(resources)
     out = []
-    got1 = load(resources)
-    got2 = load(resources)
+    # one loader object serves the whole history: load, the same load again, then the probes
+    ZConfig, MemLoader, sch = _zc()
+    shared = MemLoader(sch)
+    got1 = load(resources, loader=shared)
+    got2 = load(resources, loader=shared)
     if got1 != got2:
-        out.append(("second-load-differs", "%r then %r" % (got1, got2)))
+        out.append(("second-load-differs", "%r then %r (same loader object)" % (got1, got2)))
     for p in PROBE:
-        g = load(p)
+        g = load(p, loader=shared)
         if g[0] != "reject":
-            out.append(("definition-leaks-into-next-load", "probe %r -> %r" % (p[MAIN], g)))
+            out.append(("definition-leaks-into-next-load", "probe %r -> %r (same loader object)" % (p[MAIN], g)))
+    # and the entry-point way: a new loader per load, same schema object
+    got3 = load(resources)
+    if got3 != got1:
+        out.append(("second-load-differs", "%r then %r (new loader, same schema)" % (got1, got3)))
+    g = load(PROBE[0])
+    if g[0] != "reject":
+        out.append(("definition-leaks-into-next-load", "probe %r -> %r (new loader)" % (PROBE[0][MAIN], g)))
     if ref[0] == "unspec":
         if got1[0] == "internal":
             out.append(("internal:" + got1[1].split(":")[0], repr(got1)))
